@@ -129,8 +129,12 @@ func (am *assetMgr) loadAsset(logger *slog.Logger, mpdPath string) error {
 		return fmt.Errorf("number of periods is %d, not 1", len(mpd.Periods))
 	}
 
-	if *mpd.Type != "static" {
+	if mpd.GetType() != m.STATIC_TYPE { // a missing type attribute means static
 		return fmt.Errorf("mpd type is not static")
+	}
+
+	if mpd.MediaPresentationDuration == nil {
+		return fmt.Errorf("no mediaPresentationDuration in MPD")
 	}
 
 	if len(mpd.ProgramInformation) > 0 {
